@@ -68,14 +68,14 @@ theorem emits (t : Tmpl) : Emits t := by
   | ite cnd a b iha ihb =>
     exact ⟨fun sc => by simp only [stmts]; exact WS.ite _ (iha.stmts sc) (ihb.stmts sc),
       fun sc => by simp only [hoist]; exact seq_defs (iha.hoist sc) (ihb.hoist sc),
-      fun sc => by simp only [callDefs]; exact seq_defs (iha.deepDefs sc) (ihb.deepDefs sc),
+      fun sc => by simp only [callDefs]; exact seq_defs (iha.callDefs sc) (ihb.callDefs sc),
       fun sc => by simp only [deepDefs]; exact seq_defs (iha.deepDefs sc) (ihb.deepDefs sc),
-      fun _ => by simp only [bodyHoist]; exact skip_defs⟩
+      fun sc => by simp only [bodyHoist]; exact seq_defs (iha.bodyHoist sc) (ihb.bodyHoist sc)⟩
   | for_ x items body ih =>
     refine ⟨fun sc => ?_, fun sc => by simp only [hoist]; exact ih.hoist sc,
-      fun sc => by simp only [callDefs]; exact ih.deepDefs sc,
+      fun sc => by simp only [callDefs]; exact ih.callDefs sc,
       fun sc => by simp only [deepDefs]; exact ih.deepDefs sc,
-      fun _ => by simp only [bodyHoist]; exact skip_defs⟩
+      fun sc => by simp only [bodyHoist]; exact ih.bodyHoist sc⟩
     simp only [stmts]
     split
     · exact WS.loopBlock _ _ _ (ih.stmts sc)
@@ -83,15 +83,15 @@ theorem emits (t : Tmpl) : Emits t := by
   | while_ n body ih =>
     exact ⟨fun sc => by simp only [stmts]; exact WS.whileLt _ (ih.stmts sc),
       fun sc => by simp only [hoist]; exact ih.hoist sc,
-      fun sc => by simp only [callDefs]; exact ih.deepDefs sc,
+      fun sc => by simp only [callDefs]; exact ih.callDefs sc,
       fun sc => by simp only [deepDefs]; exact ih.deepDefs sc,
-      fun _ => by simp only [bodyHoist]; exact skip_defs⟩
+      fun sc => by simp only [bodyHoist]; exact ih.bodyHoist sc⟩
   | try_ a b iha ihb =>
     exact ⟨fun sc => by simp only [stmts]; exact WS.tryExcept (iha.stmts sc) (ihb.stmts sc),
       fun sc => by simp only [hoist]; exact seq_defs (iha.hoist sc) (ihb.hoist sc),
-      fun sc => by simp only [callDefs]; exact seq_defs (iha.deepDefs sc) (ihb.deepDefs sc),
+      fun sc => by simp only [callDefs]; exact seq_defs (iha.callDefs sc) (ihb.callDefs sc),
       fun sc => by simp only [deepDefs]; exact seq_defs (iha.deepDefs sc) (ihb.deepDefs sc),
-      fun _ => by simp only [bodyHoist]; exact skip_defs⟩
+      fun sc => by simp only [bodyHoist]; exact seq_defs (iha.bodyHoist sc) (ihb.bodyHoist sc)⟩
   | def_ name ps fl body ih =>
     have mk : ∀ (lex own : Bool) (s : Scope),
         WS (inlineDef lex name ps fl own (.seq (hoist s body) (.prim .getWriter)) (stmts s body)) ∧
@@ -109,7 +109,7 @@ theorem emits (t : Tmpl) : Emits t := by
         WS (inlineDef lex name [] fl own (.seq (hoist s body) (.prim .getWriter)) (stmts s body)) ∧
           isDefs (inlineDef lex name [] fl own (.seq (hoist s body) (.prim .getWriter)) (stmts s body)) = true :=
       fun lex own s => inlineDef_ws lex name [] fl own (ih.hoist s).1 (ih.hoist s).2 (ih.stmts s)
-    refine ⟨fun _ => by simp only [stmts]; exact WS.exprStmt _, fun sc => ?_,
+    refine ⟨fun _ => by simp only [stmts]; exact WS.write _, fun sc => ?_,
       fun sc => by simp only [callDefs]; exact mk _ _ _,
       fun sc => by simp only [deepDefs]; exact seq_defs (mk _ _ _) (ih.deepDefs sc),
       fun sc => by simp only [bodyHoist]; exact ih.hoist sc⟩
@@ -120,7 +120,7 @@ theorem emits (t : Tmpl) : Emits t := by
     · exact mk _ _ _
   | call e args body ih =>
     refine ⟨fun sc => ?_, fun _ => by simp only [hoist]; exact skip_defs,
-      fun sc => by simp only [callDefs]; exact ih.callDefs sc,
+      fun _ => by simp only [callDefs]; exact skip_defs,
       fun sc => by simp only [deepDefs]; exact ih.deepDefs sc,
       fun _ => by simp only [bodyHoist]; exact skip_defs⟩
     simp only [stmts]
